@@ -28,7 +28,7 @@ struct dyn_ghost {
 };
 extern struct dyn_ghost __verif_dyn;
 extern int64_t __verif_k;
-extern int64_t __verif_kb;
+extern uint64_t __verif_kb;   /* unsigned: offset arithmetic on it wraps instead of overflowing */
 
 /* Resource bound under which "capacity * elem_size" (int64 arithmetic in the code) cannot overflow;
  * recorded as an assumption in META. */
@@ -115,17 +115,31 @@ extern int64_t __verif_kb;
 #endif
 
 /* ---- representation invariant ---- */
-/* element size agrees with the kind; a struct array may still be in the "fresh" shape
- * (elem_size 0, nothing stored, data not yet allocated - dyn_array_new leaves data NULL) */
+/* element size agrees with the kind.  A struct array carries the size of its struct (1..255, elem_size is a uint8_t)
+ * or is still in the "fresh" shape dyn_array_new leaves: elem_size 0, data NULL, nothing stored.
+ * The element size of a struct array is a further case split (-DVERIF_ESZ=0..255): with a symbolic size every bounds
+ * proof needs monotonicity of  index*elem_size <= capacity*elem_size, which no back end bit-blasts in useful time
+ * (measured: even dyn_array_get_struct > 150 s on minisat/cadical/kissat/z3/cvc5; 0.3 s per constant size). */
 #if VERIF_KIND == 6
-#define DYN_ESZ_OK(a) ((a)->elem_size != 0 || (a)->length == 0)
+#ifdef VERIF_ESZ
+#define DYN_ESZ_OK(a) ((a)->elem_size == (VERIF_ESZ) && ((VERIF_ESZ) != 0 || (a)->length == 0))
 #else
+#define DYN_ESZ_OK(a) ((a)->elem_size != 0 || (a)->length == 0)
+#endif
+#define DYN_KIND_OK(a) ((a)->elem_type == ELEM_STRUCT)
+#elif VERIF_KIND == 0     /* any kind but struct (used where the kind only matters through its size: push_struct promotion) */
+#define DYN_KIND_OK(a) ((a)->elem_type == ELEM_INT || (a)->elem_type == ELEM_U8 || (a)->elem_type == ELEM_FLOAT || \
+                        (a)->elem_type == ELEM_STRING || (a)->elem_type == ELEM_BOOL || (a)->elem_type == ELEM_ARRAY || \
+                        (a)->elem_type == ELEM_POINTER)
+#define DYN_ESZ_OK(a) ((a)->elem_size == DYN_ESZ_OF((a)->elem_type))
+#else
+#define DYN_KIND_OK(a) ((a)->elem_type == DYN_KIND)
 #define DYN_ESZ_OK(a) ((a)->elem_size == DYN_ESZ_OF(DYN_KIND))
 #endif
-#define DYN_BYTES(a) ((size_t)(a)->capacity * (size_t)(a)->elem_size)
+#define DYN_BYTES(a) ((size_t)((a)->capacity * (a)->elem_size))       /* the very expression the code allocates with */
 #define DYN_SHAPE_OK_(a, kind, eszok) ((a)->elem_type == (kind) && 0 <= (a)->length && (a)->length <= (a)->capacity && \
                                       1 <= (a)->capacity && (eszok))
-#define DYN_SHAPE_OK(a) DYN_SHAPE_OK_(a, DYN_KIND, DYN_ESZ_OK(a))
+#define DYN_SHAPE_OK(a) (DYN_KIND_OK(a) && DYN_SHAPE_OK_(a, (a)->elem_type, DYN_ESZ_OK(a)))
 
 /* as a precondition: header and backing store are separate objects of exactly the stated sizes, so that any access
  * outside data[0 .. capacity*elem_size) is an out-of-bounds access for CBMC */
@@ -147,10 +161,11 @@ extern int64_t __verif_kb;
 /* __CPROVER_old() takes no conditional expression: the index is clamped to slot 0 (which exists: capacity >= 1)
  * when k is outside [0, length); every use is guarded by k being inside */
 #define DYN_CLAMP(k, n) ((k) * (int64_t)(0 <= (k) && (k) < (n)))
+#define DYN_UCLAMP(j, n) ((uint64_t)(j) * (uint64_t)((uint64_t)(j) < (uint64_t)(n)))
 #define DYN_OLD_AT(a, k) __CPROVER_old(((DYN_VT *)(a)->data)[DYN_CLAMP(k, (a)->length)])
 #define DYN_BYTE(a, j) (((uint8_t *)(a)->data)[j])
-#define DYN_LEN_BYTES(a) ((a)->length * (int64_t)(a)->elem_size)
-#define DYN_OLD_BYTE(a, j) __CPROVER_old(((uint8_t *)(a)->data)[DYN_CLAMP(j, DYN_LEN_BYTES(a))])
+#define DYN_LEN_BYTES(a) ((uint64_t)((a)->length * (a)->elem_size))
+#define DYN_OLD_BYTE(a, j) __CPROVER_old(((uint8_t *)(a)->data)[DYN_UCLAMP(j, DYN_LEN_BYTES(a))])
 
 #define DYN_K __verif_k
 #define DYN_KB __verif_kb
@@ -189,7 +204,7 @@ DynArray *DYN_F_PUSH(DynArray *arr, DYN_PUSH_T value)
 __CPROVER_requires(DYN_WF_PRE(arr))
 __CPROVER_requires(arr->length < arr->capacity || arr->capacity <= DYN_CAP_MAX / 2)
 __CPROVER_requires(__verif_dyn.exited == 0)
-__CPROVER_assigns(__verif_dyn; __CPROVER_object_whole(arr); __CPROVER_object_whole(arr->data))
+__CPROVER_assigns(__verif_dyn; __CPROVER_object_whole(arr); arr->data != NULL: __CPROVER_object_whole(arr->data))
 __CPROVER_frees(arr->data)
 __CPROVER_ensures(__CPROVER_return_value == arr)
 __CPROVER_ensures(DYN_WF_POST(arr))
@@ -219,22 +234,70 @@ __CPROVER_ensures(__CPROVER_old(arr->length) == 0 ==>
 __CPROVER_ensures(__verif_dyn.exited == 0);
 #endif /* DYN_TYPED */
 
+/* the fresh struct shape (-DVERIF_KIND=6 -DVERIF_ESZ=0) has no store: byte-view clauses would dereference NULL in
+ * their __CPROVER_old() snapshots and have nothing to say (length is 0) */
+#if VERIF_KIND == 6 && defined(VERIF_ESZ) && VERIF_ESZ == 0
+#define DYN_HAS_STORE 0
+#define DYN_BYTE_ENSURES(c)
+#else
+#define DYN_HAS_STORE 1
+#define DYN_BYTE_ENSURES(c) __CPROVER_ensures(c)
+#endif
+/* push_struct: "what was stored before is still there" only applies to a struct array that already has elements */
+#if VERIF_KIND == 6 && DYN_HAS_STORE
+#define DYN_PREFIX_ENSURES(c) __CPROVER_ensures(c)
+#else
+#define DYN_PREFIX_ENSURES(c)
+#endif
+
+/* ===================== libc block copies ===================== */
+/* CBMC's built-in memmove/memcpy models (array_copy + array_replace with a symbolic length) cannot be bit-blasted
+ * for a symbolic length (measured: > 10 min on every back end inside a DFCC query), so the operations that shift or
+ * copy elements are verified against these CONTRACTS of memmove/memcpy (C11 7.24.2.1/2 byte for byte, one ghost byte):
+ *   the ghost __verif_kb is read as a byte offset into the object dest points into;
+ *   if it lies inside [dest, dest+n) that byte now holds what the corresponding source byte held on entry;
+ *   nothing outside [dest, dest+n) is written (frame).
+ * The caller owes validity of both regions (that IS the memory-safety obligation of the call).
+ * These two contracts are ASSUMED (trusted base: libc block copies behave as C11 specifies).  An attempt to check them
+ * against CBMC's built-in models (plain harness, z3) did not terminate in 240 s either. */
+#include <string.h>
+#define LIBC_J(dest) (__verif_kb - (uint64_t)__CPROVER_POINTER_OFFSET(dest))      /* wraps to a huge value when kb lies below dest */
+#define LIBC_J_IN(dest, n) (LIBC_J(dest) < (uint64_t)(n))
+#define LIBC_COPY_REQ(dest, src, n) ((n) == 0 || (__CPROVER_w_ok(dest, n) && __CPROVER_r_ok(src, n)))
+
+void *memmove(void *dest, const void *src, size_t n)
+__CPROVER_requires(LIBC_COPY_REQ(dest, src, n))
+__CPROVER_assigns(n != 0: __CPROVER_object_upto(dest, n))
+__CPROVER_ensures(__CPROVER_return_value == dest)
+__CPROVER_ensures(LIBC_J_IN(dest, n) ==>
+                  ((const uint8_t *)dest)[LIBC_J(dest)] == __CPROVER_old(((const uint8_t *)src)[DYN_UCLAMP(LIBC_J(dest), n)]));
+
+void *memcpy(void *dest, const void *src, size_t n)
+__CPROVER_requires(LIBC_COPY_REQ(dest, src, n))
+__CPROVER_requires(n == 0 || !__CPROVER_same_object(dest, src) ||
+                   (const char *)dest + n <= (const char *)src || (const char *)src + n <= (const char *)dest)   /* no overlap */
+__CPROVER_assigns(n != 0: __CPROVER_object_upto(dest, n))
+__CPROVER_ensures(__CPROVER_return_value == dest)
+__CPROVER_ensures(LIBC_J_IN(dest, n) ==>
+                  ((const uint8_t *)dest)[LIBC_J(dest)] == __CPROVER_old(((const uint8_t *)src)[DYN_UCLAMP(LIBC_J(dest), n)]));
+
 /* ===================== kind-generic operations (byte view) ===================== */
-#define DYN_OLD_BYTE_UP(a, j) __CPROVER_old(((uint8_t *)(a)->data)[DYN_CLAMP((j) + (int64_t)(a)->elem_size, DYN_LEN_BYTES(a))])
-#define DYN_OLD_LEN_BYTES(a) (__CPROVER_old((a)->length) * (int64_t)__CPROVER_old((a)->elem_size))
+#define DYN_OLD_BYTE_UP(a, j) __CPROVER_old(((uint8_t *)(a)->data)[DYN_UCLAMP((j) + (uint64_t)(a)->elem_size, DYN_LEN_BYTES(a))])
+#define DYN_OLD_LEN_BYTES(a) ((uint64_t)(__CPROVER_old((a)->length) * __CPROVER_old((a)->elem_size)))
+#define DYN_OFF(a, k) ((uint64_t)((k) * (a)->elem_size))          /* byte offset of element k, computed as the code does */
 
 /* remove_at: if it returns the index was in range; sequence' = sequence without element index
  * (bytes below index*elem_size as before, bytes from there on are the old bytes one element further up) */
 DynArray *dyn_array_remove_at(DynArray *arr, int64_t index)
 __CPROVER_requires(DYN_WF_PRE(arr))
 __CPROVER_requires(__verif_dyn.exited == 0)
-__CPROVER_assigns(__verif_dyn; arr->length; __CPROVER_object_whole(arr->data))
+__CPROVER_assigns(__verif_dyn; arr->length; arr->data != NULL: __CPROVER_object_whole(arr->data))
 __CPROVER_ensures(0 <= index && index < __CPROVER_old(arr->length))
 __CPROVER_ensures(__CPROVER_return_value == arr)
 __CPROVER_ensures(DYN_SAME_STORE(arr))
 __CPROVER_ensures(arr->length == __CPROVER_old(arr->length) - 1)
-__CPROVER_ensures((0 <= DYN_KB && DYN_KB < index * (int64_t)arr->elem_size) ==> DYN_BYTE(arr, DYN_KB) == DYN_OLD_BYTE(arr, DYN_KB))
-__CPROVER_ensures((index * (int64_t)arr->elem_size <= DYN_KB && DYN_KB < DYN_LEN_BYTES(arr)) ==>
+DYN_BYTE_ENSURES(DYN_KB < DYN_OFF(arr, index) ==> DYN_BYTE(arr, DYN_KB) == DYN_OLD_BYTE(arr, DYN_KB))
+DYN_BYTE_ENSURES((DYN_OFF(arr, index) <= DYN_KB && DYN_KB < DYN_LEN_BYTES(arr)) ==>
                   DYN_BYTE(arr, DYN_KB) == DYN_OLD_BYTE_UP(arr, DYN_KB))
 __CPROVER_ensures(__verif_dyn.exited == 0);
 
@@ -265,14 +328,14 @@ void dyn_array_reserve(DynArray *arr, int64_t new_capacity)
 __CPROVER_requires(DYN_WF_PRE(arr))
 __CPROVER_requires(new_capacity <= DYN_CAP_MAX)
 __CPROVER_requires(__verif_dyn.exited == 0)
-__CPROVER_assigns(__verif_dyn; __CPROVER_object_whole(arr); __CPROVER_object_whole(arr->data))
+__CPROVER_assigns(__verif_dyn; __CPROVER_object_whole(arr); arr->data != NULL: __CPROVER_object_whole(arr->data))
 __CPROVER_frees(arr->data)
 __CPROVER_ensures(DYN_WF_POST(arr))
 __CPROVER_ensures(arr->length == __CPROVER_old(arr->length) && arr->elem_size == __CPROVER_old(arr->elem_size))
 __CPROVER_ensures(new_capacity <= __CPROVER_old(arr->capacity)
                   ? (arr->capacity == __CPROVER_old(arr->capacity) && arr->data == __CPROVER_old(arr->data))
                   : arr->capacity == new_capacity)
-__CPROVER_ensures((0 <= DYN_KB && DYN_KB < DYN_LEN_BYTES(arr)) ==> DYN_BYTE(arr, DYN_KB) == DYN_OLD_BYTE(arr, DYN_KB))
+DYN_BYTE_ENSURES(DYN_KB < DYN_LEN_BYTES(arr) ==> DYN_BYTE(arr, DYN_KB) == DYN_OLD_BYTE(arr, DYN_KB))
 __CPROVER_ensures(__verif_dyn.exited == 0);
 
 /* GC allocator boundary (src/runtime/gc.c is not part of this unit): assumed contracts */
@@ -315,12 +378,25 @@ __CPROVER_assigns(__verif_dyn)
 __CPROVER_ensures(__CPROVER_return_value == NULL ||
                   (!__CPROVER_same_object(__CPROVER_return_value, arr) && DYN_WF_POST(__CPROVER_return_value) &&
                    __CPROVER_return_value->length == arr->length && __CPROVER_return_value->elem_size == arr->elem_size))
-__CPROVER_ensures((__CPROVER_return_value != NULL && 0 <= DYN_KB && DYN_KB < DYN_LEN_BYTES(arr)) ==>
+__CPROVER_ensures((__CPROVER_return_value != NULL && DYN_KB < DYN_LEN_BYTES(arr)) ==>
                   (!__CPROVER_same_object(__CPROVER_return_value->data, arr->data) &&
                    DYN_BYTE(__CPROVER_return_value, DYN_KB) == DYN_BYTE(arr, DYN_KB)))
 __CPROVER_ensures(__verif_dyn.exited == 0);
 
 /* ---- struct variants ---- */
+/* struct_size of push_struct: pinned by the code's own assert when the array already has an element size; for a
+ * fresh / promoted array it becomes the element size, hence the same case split (-DVERIF_SSZ=1..255, or
+ * -DVERIF_SSZ_BIG: > 255, where the call must not return because elem_size is a uint8_t) */
+/* a struct has at least one byte; sizes above 255 never get past the code's "elem_size == struct_size" assert, the
+ * upper limit only keeps the object a size CBMC can allocate */
+#define DYN_SSZ_RANGE(n) ((n) >= 1 && (n) <= ((size_t)1 << 20))
+#if defined(VERIF_SSZ)
+#define DYN_SSZ_REQ(n) ((n) == (VERIF_SSZ))
+#elif defined(VERIF_SSZ_BIG)
+#define DYN_SSZ_REQ(n) ((n) > 255)
+#else
+#define DYN_SSZ_REQ(n) 1
+#endif
 #define DYN_SBYTE(p, j) (((const uint8_t *)(p))[j])
 
 /* push_struct: any kind on entry (an EMPTY array of another kind is promoted to a struct array);
@@ -328,17 +404,17 @@ __CPROVER_ensures(__verif_dyn.exited == 0);
 DynArray *dyn_array_push_struct(DynArray *arr, const void *struct_ptr, size_t struct_size)
 __CPROVER_requires(DYN_WF_PRE(arr))
 __CPROVER_requires(arr->length < arr->capacity || arr->capacity <= DYN_CAP_MAX / 2)
-__CPROVER_requires(struct_size >= 1 && VERIF_FRESH(struct_ptr, struct_size))
+__CPROVER_requires(DYN_SSZ_RANGE(struct_size) && DYN_SSZ_REQ(struct_size) && VERIF_FRESH(struct_ptr, struct_size))
 __CPROVER_requires(__verif_dyn.exited == 0)
-__CPROVER_assigns(__verif_dyn; __CPROVER_object_whole(arr); __CPROVER_object_whole(arr->data))
+__CPROVER_assigns(__verif_dyn; __CPROVER_object_whole(arr); arr->data != NULL: __CPROVER_object_whole(arr->data))
 __CPROVER_frees(arr->data)
 __CPROVER_ensures(__CPROVER_return_value == arr)
 __CPROVER_ensures(__CPROVER_old(arr->elem_type) == ELEM_STRUCT || __CPROVER_old(arr->length) == 0)
 __CPROVER_ensures(DYN_SHAPE_OK_(arr, ELEM_STRUCT, arr->elem_size == struct_size) && DYN_STORE_OK(arr))
 __CPROVER_ensures(arr->length == __CPROVER_old(arr->length) + 1)
-__CPROVER_ensures((0 <= DYN_KB && (uint64_t)DYN_KB < struct_size) ==>
-                  DYN_BYTE(arr, (arr->length - 1) * (int64_t)arr->elem_size + DYN_KB) == DYN_SBYTE(struct_ptr, DYN_KB))
-__CPROVER_ensures((0 <= DYN_KB && DYN_KB < DYN_OLD_LEN_BYTES(arr)) ==> DYN_BYTE(arr, DYN_KB) == DYN_OLD_BYTE(arr, DYN_KB))
+__CPROVER_ensures((DYN_OFF(arr, arr->length - 1) <= DYN_KB && DYN_KB < DYN_LEN_BYTES(arr)) ==>
+                  DYN_BYTE(arr, DYN_KB) == DYN_SBYTE(struct_ptr, DYN_KB - DYN_OFF(arr, arr->length - 1)))
+DYN_PREFIX_ENSURES(DYN_KB < DYN_OLD_LEN_BYTES(arr) ==> DYN_BYTE(arr, DYN_KB) == DYN_OLD_BYTE(arr, DYN_KB))
 __CPROVER_ensures(__verif_dyn.exited == 0);
 
 #if VERIF_KIND == 6
@@ -350,38 +426,35 @@ __CPROVER_requires(__verif_dyn.exited == 0)
 __CPROVER_assigns(__verif_dyn)
 DYN_C08_ENSURES(0 <= index && index < arr->length)
 __CPROVER_ensures((0 <= index && index < arr->length)
-                  ? __CPROVER_return_value == (uint8_t *)arr->data + index * (int64_t)arr->elem_size
+                  ? __CPROVER_return_value == (uint8_t *)arr->data + DYN_OFF(arr, index)
                   : __CPROVER_return_value == NULL)
 __CPROVER_ensures(__verif_dyn.exited == 0);
 
 void dyn_array_set_struct(DynArray *arr, int64_t index, const void *struct_ptr, size_t struct_size)
 __CPROVER_requires(DYN_WF_PRE(arr))
-__CPROVER_requires(struct_size >= 1 && VERIF_FRESH(struct_ptr, struct_size))
+__CPROVER_requires(DYN_SSZ_RANGE(struct_size) && VERIF_FRESH(struct_ptr, struct_size))
 __CPROVER_requires(__verif_dyn.exited == 0)
-__CPROVER_assigns(__verif_dyn; __CPROVER_object_whole(arr->data))
+__CPROVER_assigns(__verif_dyn; arr->data != NULL: __CPROVER_object_whole(arr->data))
 DYN_C08_ENSURES(0 <= index && index < arr->length)
 __CPROVER_ensures(arr->elem_size == struct_size)
-__CPROVER_ensures((0 <= index && index < arr->length && 0 <= DYN_KB && (uint64_t)DYN_KB < struct_size) ==>
-                  DYN_BYTE(arr, index * (int64_t)arr->elem_size + DYN_KB) == DYN_SBYTE(struct_ptr, DYN_KB))
-__CPROVER_ensures((0 <= DYN_KB && DYN_KB < DYN_LEN_BYTES(arr) &&
-                   !(0 <= index && index < arr->length && index * (int64_t)arr->elem_size <= DYN_KB &&
-                     DYN_KB < (index + 1) * (int64_t)arr->elem_size)) ==>
-                  DYN_BYTE(arr, DYN_KB) == DYN_OLD_BYTE(arr, DYN_KB))
+#define DYN_IN_ELEM(a, i, j) (0 <= (i) && (i) < (a)->length && DYN_OFF(a, i) <= (j) && (j) < DYN_OFF(a, i) + (a)->elem_size)
+DYN_BYTE_ENSURES(DYN_IN_ELEM(arr, index, DYN_KB) ==> DYN_BYTE(arr, DYN_KB) == DYN_SBYTE(struct_ptr, DYN_KB - DYN_OFF(arr, index)))
+DYN_BYTE_ENSURES((DYN_KB < DYN_LEN_BYTES(arr) && !DYN_IN_ELEM(arr, index, DYN_KB)) ==> DYN_BYTE(arr, DYN_KB) == DYN_OLD_BYTE(arr, DYN_KB))
 __CPROVER_ensures(__verif_dyn.exited == 0);
 
 /* pop_struct: the ghost struct is NOT written in this obligation's harness (-DVERIF_GHOST_OFF) so that the
  * frame stays at three targets */
 void dyn_array_pop_struct(DynArray *arr, void *out_struct, size_t struct_size, bool *success)
 __CPROVER_requires(DYN_WF_PRE(arr))
-__CPROVER_requires(struct_size >= 1 && VERIF_FRESH(out_struct, struct_size))
+__CPROVER_requires(DYN_SSZ_RANGE(struct_size) && VERIF_FRESH(out_struct, struct_size))
 __CPROVER_requires(success == NULL || VERIF_FRESH(success, sizeof(bool)))
 __CPROVER_assigns(arr->length; __CPROVER_object_whole(out_struct); success != NULL: *success)
 DYN_C08_ENSURES(__CPROVER_old(arr->length) > 0)
 __CPROVER_ensures(DYN_SAME_STORE(arr) && arr->elem_size == struct_size)
 __CPROVER_ensures(__CPROVER_old(arr->length) > 0 ==>
                   (arr->length == __CPROVER_old(arr->length) - 1 && (success == NULL || *success == true)))
-__CPROVER_ensures((__CPROVER_old(arr->length) > 0 && 0 <= DYN_KB && (uint64_t)DYN_KB < struct_size) ==>
-                  DYN_SBYTE(out_struct, DYN_KB) == DYN_BYTE(arr, arr->length * (int64_t)arr->elem_size + DYN_KB))
+DYN_BYTE_ENSURES((__CPROVER_old(arr->length) > 0 && DYN_KB < struct_size) ==>
+                  DYN_SBYTE(out_struct, DYN_KB) == DYN_BYTE(arr, DYN_OFF(arr, arr->length) + DYN_KB))
 __CPROVER_ensures(__CPROVER_old(arr->length) == 0 ==> (arr->length == 0 && (success == NULL || *success == false)));
 #endif
 
